@@ -37,6 +37,14 @@ computation of CPython agrees for every `1 ≤ m < 2^29` (notes/translator.md). 
 def ceilLog2 (m : Int) : Except Err Int :=
   if m ≤ 0 then .error .valueError else .ok (clog2 m.toNat : Nat)
 
+/-- the exact integer square root, as an instance of the ABSTRACT call `int(sqrt(a))` of the translated code
+(`math.sqrt` of a negative number is a ValueError).  CPython's float computation agrees as long as `a < 2^52`. -/
+def isqrt (a : Int) : Except Err Int :=
+  if a < 0 then .error .valueError else .ok (Nat.sqrt a.toNat : Nat)
+
+/-- the length argument `r` of `itertools.combinations / permutations / …`: a negative one is a ValueError -/
+def itertoolsR (r : Int) : Except Err Nat := if r < 0 then .error .valueError else .ok r.toNat
+
 /-- `min(a, b)`, `max(a, b)` on integers -/
 def min2 (a b : Int) : Int := if b < a then b else a
 def max2 (a b : Int) : Int := if b > a then b else a
@@ -99,6 +107,12 @@ def listSet {α : Type} (l : List α) (i : Int) (v : α) : Except Err (List α) 
   else if -i ≤ (l.length : Int) then .ok (l.set (l.length - (-i).toNat) v)
   else .error .indexError
 
+/-- `a, b, c = l`: exactly three entries, else ValueError -/
+def unpack3 {α : Type} (l : List α) : Except Err (α × α × α) :=
+  match l with
+  | [a, b, c] => .ok (a, b, c)
+  | _ => .error .valueError
+
 /-- `v = l.pop()`: the last element and the list without it; IndexError when empty -/
 def pop {α : Type} (l : List α) : Except Err (α × List α) :=
   match l.getLast? with
@@ -142,6 +156,15 @@ def insertSorted (x : Int) : List Int → List Int
 
 /-- `sorted(l)` on integers -/
 def sorted (l : List Int) : List Int := l.foldl (fun acc x => insertSorted x acc) []
+
+/-- `itertools.combinations(l, 2)` as pairs, in Python's order -/
+def combos2 {α : Type} : List α → List (α × α)
+  | [] => []
+  | x :: xs => xs.map (fun y => (x, y)) ++ combos2 xs
+
+/-- `itertools.product(a, b)`: pairs, the first coordinate varies slowest -/
+def product2 {α β : Type} (a : List α) (b : List β) : List (α × β) :=
+  a.flatMap (fun x => b.map (fun y => (x, y)))
 
 /-! ### `None` -/
 
